@@ -32,7 +32,7 @@ import random
 import re
 
 # constructs of open findings that the random generator must not produce (probe + avoid); see findings/C14.json
-ALL_AVOIDABLE = ("C14-wrapper-receiver-pkg", "C14-wrapper-local-scope", "C14-dotted-path")
+ALL_AVOIDABLE = ("C14-wrapper-receiver-pkg", "C14-wrapper-local-scope", "C14-dotted-path", "C14-alias-ptrtothis")
 
 T_SRC = """package t
 
@@ -108,7 +108,7 @@ class Named:
             et, ptr, pad = self.emb
             return "type %s struct {\n\t%s%s\n\tpad [%d]byte\n}" % (self.name, "*" if ptr else "", rtype(et, Q), pad)
         if self.form == "struct":
-            return "type %s struct{ a [%d]byte }" % (self.name, self.size)
+            return "type %s struct{ %s [%d]byte }" % (self.name, "a" if self.local else "Tag", self.size)
         return "type %s [%d]byte" % (self.name, self.size)
 
 
@@ -337,9 +337,10 @@ class Prog:
         if cur is not None and cur != key:
             return False
         self.id_owner[i] = key
-        fs = self.id_full.setdefault(i, [])
-        if full not in fs:
-            fs.append(full)
+        for e in ent.all():
+            fs = self.id_full.setdefault(e.id + size * 1000, [])
+            if full not in fs:
+                fs.append(full)
         return True
 
     def expect(self, ent, size=None, why=""):
@@ -427,11 +428,15 @@ class Prog:
             nt = Named(P, tn, self.new_size(), form)
             info[tn] = nt
             L.append(nt.decl() + "\n")
+            # receiver state: every value carries 7 in its first byte and every method checks it (a wrapper that passes the
+            # receiver in the wrong form - value vs pointer - shows up as an EQ mismatch)
+            L.append("func New%s() %s {\n\tvar v %s\n\tv%s[0] = 7\n\treturn v\n}\n" % (tn, tn, tn, ".Tag" if form == "struct" else ""))
             for m, ptr in (("A", False), ("M", False), ("Z", False), ("P", True)):
                 e = Ent(self, "%s.%s.%s" % (P.path, "(*%s)" % tn if ptr else tn, m))
                 self.mk_children(e, rng.choice([0, 0, 1, 2, 3]) if m in ("M", "P") else 0, False)
                 nt.meth[m] = e
                 L.append("func (r %s%s) %s() {" % ("*" if ptr else "", tn, m))
+                L.append("\tt.Eq(int(r%s[0]), 7)" % (".Tag" if form == "struct" else ""))
                 self.body(L, "\t", e, None, P)
                 L.append("}\n")
                 self.expect(e)
@@ -465,7 +470,7 @@ class Prog:
         for i, nm in enumerate(("A1", "A2")):
             tgt = rng.choice(cands)
             if rng.random() < 0.3:
-                tgt = (rng.choice(["ptr", "slice"]), tgt)
+                tgt = (rng.choice(["slice"] if self.avoiding("C14-alias-ptrtothis") else ["ptr", "slice"]), tgt)
             al = Alias(P, nm, tgt)
             L.append("type %s = %s\n" % (nm, rtype(tgt, P)))
             als.append(al)
@@ -577,7 +582,28 @@ class Prog:
             out.append(("n", nt) if isinstance(nt, Named) else ("alias", nt))
         return out
 
+    def renderable(self, t, Q, env):
+        """can the type be written in this scope? (a local type named T/U shadows the package-level type of the same name)"""
+        k = t[0]
+        if k == "n":
+            nt = t[1]
+            return nt.local or nt.pkg is not Q or nt.name not in env["shadow"]
+        if k == "alias":
+            al = t[1]
+            return al.local or al.pkg is not Q or al.name not in env["shadow"]
+        if k in ("arr", "inst"):
+            return self.renderable(t[2], Q, env)
+        return self.renderable(t[1], Q, env)
+
     def pick_arg(self, Q, env, need_size):
+        for _ in range(8):
+            X, E = self.pick_arg0(Q, env, need_size)
+            if self.renderable(X, Q, env) and (E is None or self.renderable(E, Q, env)):
+                return X, E
+        b = self.rng.choice(self.base_types(Q, env))
+        return b, None
+
+    def pick_arg0(self, Q, env, need_size):
         """-> (type for X, type for E or None).  With E the id comes from E (a named leaf)."""
         rng = self.rng
         bases = self.base_types(Q, env)
@@ -810,7 +836,7 @@ class Prog:
             meth = rng.choice(["A", "M", "M", "Z", "P", "P"])
             e = nt.meth[meth]
             x = self.var(env)
-            L.append(ind + "var %s %s" % (x, rtype(("n", nt), Q)))
+            L.append(ind + "%s := %sNew%s()" % (x, Q.ref(p), tn))
             modes = ["direct", "expr", "go", "defer"]
             key = ("conc", tn, meth)
             if self.bound_ok(Q, key, p.path):
@@ -830,7 +856,14 @@ class Prog:
             meth = rng.choice(iset)
             e = nt.meth[meth]
             i = self.var(env, "i")
-            L.append(ind + "var %s %sI = %s{}" % (i, Q.ref(ip), rtype(("n", nt), Q)))
+            if rng.random() < 0.4:
+                # the interface holds a pointer: value methods are reached through the (*T).M wrappers
+                pv = self.var(env, "pv")
+                L.append(ind + "%s := %sNew%s()" % (pv, Q.ref(p), tn))
+                L.append(ind + "var %s %sI = &%s" % (i, Q.ref(ip), pv))
+                self.feat("use:iface:ptr")
+            else:
+                L.append(ind + "var %s %sI = %sNew%s()" % (i, Q.ref(ip), Q.ref(p), tn))
             modes = ["direct", "go", "defer"]
             if self.bound_ok(Q, ("iface", "I", meth), ip.path):
                 modes += ["bound", "expr", "gobound", "deferbound"]
@@ -918,9 +951,11 @@ class Prog:
             e = base.meth[meth]
             x = self.var(env)
             if ptr:
-                L.append(ind + "%s := %s{%s: new(%s)}" % (x, nt.name, base.name, rtype(et, Q)))
+                pv = self.var(env, "pv")
+                L.append(ind + "%s := %sNew%s()" % (pv, Q.ref(base.pkg), base.name))
+                L.append(ind + "%s := %s{%s: &%s}" % (x, nt.name, base.name, pv))
             else:
-                L.append(ind + "var %s %s" % (x, nt.name))
+                L.append(ind + "%s := %s{%s: %sNew%s()}" % (x, nt.name, base.name, Q.ref(base.pkg), base.name))
             how = rng.choice(["direct", "iface", "iface", "bound", "go", "defer", "expr"])
             W = ind + "t.Want(%d)" % e.id
             if how == "iface":
